@@ -497,7 +497,7 @@ func run(m *mon.M) {
 	m.Note("sweep_cases", int64(n))
 	m.Note("sweep_cases_total_all_shards", int64(len(sweep))/int64(m.NShards))
 	r := m.Rand("cases")
-	total := m.N(12000, 185000)
+	total := m.N(40000, 300000)
 	for i := 0; i < total; i++ {
 		// a handful of 64 KiB / 1 MiB contents per shard in the quick tier, about 1 in 50 in the thorough tier
 		c := genCase(r, !m.Quick() || i%400 == 7)
